@@ -72,6 +72,12 @@ def AbsEq (db : Db) (s t : JState) : Prop :=
 database, is a 256-bit word (what `U256` guarantees in the Rust; the model's words are unbounded `Nat`s) -/
 def WF (db : Db) (s : JState) : Prop := ∀ a, (absAcct db s a).balance < W
 
+/-- the delegation target designated by the code of `a`, as `load_account_delegated` reads it -/
+def delegateOf (db : Db) (s : JState) (a : Addr) : Option Addr :=
+  match loadCode db s a with
+  | some (s1, _) => (s1.state a).bind fun acc => acc.info.code.bind db.delegate
+  | none => none
+
 /-! ## histories -/
 
 inductive Op
